@@ -1128,17 +1128,9 @@ private:
       size_t close_bracket_pos = fmt_template.find_first_of('}', open_bracket_pos + 1);
       while (close_bracket_pos != std::string::npos)
       {
-        // found closed bracket
-        if (size_t const close_bracket_2_pos = fmt_template.find_first_of('}', close_bracket_pos + 1);
-            close_bracket_2_pos != std::string::npos)
-        {
-          // found another open bracket
-          if ((close_bracket_2_pos - 1) == close_bracket_pos)
-          {
-            close_bracket_pos = fmt_template.find_first_of('}', close_bracket_2_pos + 1);
-            continue;
-          }
-        }
+        // The first '}' after an unescaped '{' always closes the replacement field (fmt allows no '}'
+        // inside a field). A "}}" directly after the field is an escaped brace of the literal text that
+        // follows and is copied verbatim below, so it must not be skipped here: "{a}}}" is {a} + "}}".
 
         // construct a fmt string excluding the characters inside the brackets { }
         std::string_view const text_inside_placeholders =
